@@ -109,6 +109,9 @@ def run_case(ctx):
     rng = ctx.rng
     gm = gen.random_basis_list(rng, nsite=(2, 6), max_dim=400, qn_mode=rng.choice(["none", "one", "two"], p=[0.25, 0.55, 0.2]),
                                min_dim=4)
+    if rng.random() < 0.05:
+        gm = gen.long_chain(rng, 10, 10)
+        ctx.cls("long-chain")
     model = states.model_of(gm)
     qntot = states.pick_sector(rng, gm)
     ctx.cls("qn-" + gm.desc["qn_mode"])
